@@ -81,6 +81,24 @@ void for_patterns(F f)
     for_patterns_impl<I, A, R, Lo>(f, std::make_index_sequence<Count>{});
 }
 
+/// calls f.template operator()<E>() for every type of an explicit list (ranks 5-6: a few patterns)
+template <typename... Es>
+struct type_list {};
+template <typename F, typename... Es>
+void for_types(F f, type_list<Es...> /*l*/)
+{
+    (f.template operator()<Es>(), ...);
+}
+
+/// the rank 5 and rank 6 extents types of the harness: all dynamic, all static, the two
+/// alternating patterns, a static and a dynamic block, static 0 / static 1 next to dynamic
+template <typename I>
+using rank5_types = type_list<etl::extents<I, dyn, dyn, dyn, dyn, dyn>, etl::extents<I, 2, 3, 2, 3, 2>, etl::extents<I, dyn, 2, dyn, 3, dyn>,
+    etl::extents<I, 2, dyn, 3, dyn, 2>, etl::extents<I, 2, 3, dyn, dyn, dyn>, etl::extents<I, dyn, dyn, 1, 0, 3>>;
+template <typename I>
+using rank6_types = type_list<etl::extents<I, dyn, dyn, dyn, dyn, dyn, dyn>, etl::extents<I, 2, 3, 2, 3, 2, 3>, etl::extents<I, dyn, 2, dyn, 3, dyn, 2>,
+    etl::extents<I, 2, dyn, 3, dyn, 2, dyn>, etl::extents<I, dyn, dyn, dyn, 2, 3, 2>, etl::extents<I, 1, dyn, 0, dyn, 3, dyn>>;
+
 // ----------------------------------------------------------------------------------------
 // names
 // ----------------------------------------------------------------------------------------
@@ -147,7 +165,7 @@ inline std::string show(std::vector<ll> const& v)
 // ----------------------------------------------------------------------------------------
 // run-time description of an extents type (constant-initialised: costs no code per type)
 // ----------------------------------------------------------------------------------------
-inline constexpr std::size_t MAXR = 4;
+inline constexpr std::size_t MAXR = 6;
 struct TypeInfo {
     char const* index;
     std::size_t rank;
